@@ -415,3 +415,88 @@ MUTANTS += [
       "        self.current_size = max(self.current_size, end)\n        if end >= self.download_size:\n            self.download_size = min(self.download_size, start)\n", None),
     M("benign-current-size-max-mirrored", F, "        self.current_size = max(self.current_size, end)\n", "        self.current_size = max(end, self.current_size)\n", None),
 ]
+
+# ---- round 6 (seeded C39-I): write() no longer unpacks self.overwrites[0]; it tests self.overwrites[0][0] in place and takes the
+# ---- whole region `(start, end) = self._pop_merged_overwrite()` from a helper that pops the first record too (a refactor with
+# ---- len(x) > 0 -> truthiness and `if end > milestone: milestone = end` -> max() tidy-ups)
+_I_EDITS = [
+    (F, "        while len(self.overwrites) > 0:\n            (start, end) = self.overwrites[0]\n            if start >= next_downloaded:\n",
+     "        while self.overwrites:\n            if self.overwrites[0][0] >= next_downloaded:\n"),
+    (F, "                break\n            if start > self.downloaded:\n",
+     "                break\n\n            (start, end) = self._pop_merged_overwrite()\n            if start > self.downloaded:\n"),
+    (F, "        if len(self.overwrites) > 0:\n            (start, end) = self.overwrites[0]\n            if start <= new_downloaded and end > milestone:\n                milestone = end\n\n        while len(self.milestones) > 0:\n",
+     "        if self.overwrites:\n            (start, end) = self.overwrites[0]\n            if start <= new_downloaded:\n                milestone = max(milestone, end)\n\n        while self.milestones:\n"),
+    (F, "        while len(self.milestones) > 0:\n            (next_, d) = self.milestones[0]\n            if noisy: self.log(\"MILESTONE FINISH",
+     "        while self.milestones:\n            (next_, d) = self.milestones[0]\n            if noisy: self.log(\"MILESTONE FINISH"),
+]
+_I_HELPER = ("    def _pop_merged_overwrite(self):\n"
+             "        (start, end) = heapq.heappop(self.overwrites)\n"
+             "        while %s:\n"
+             "%s"
+             "        return (start, end)\n")
+_I_ADJ = "self.overwrites and self.overwrites[0][0] <= end"
+
+
+def _I(name, merge, expect, cond=_I_ADJ, more=()):
+    """The C39-I refactor with `merge` as the body of the helper's merge loop (+ further edits applied on top of it)."""
+    return M(name, F, "            # This merges consecutive overwrites if possible, which allows us to detect the\n"
+             "            # case where the download can be stopped early because the remaining region\n"
+             "            # to download has already been fully overwritten.\n" + _MERGE_INLINE + "\n", "", expect,
+             edits=[(F, _NEXT_METHOD, _helper(_I_HELPER % (cond, merge)))] + _I_EDITS + list(more))
+
+
+MUTANTS += [
+    # the same refactor done faithfully
+    _I("benign-region-helper-faithful", "            (_, end1) = heapq.heappop(self.overwrites)\n            end = max(end, end1)\n", None),
+    _I("benign-region-helper-max-of-popped", "            end = max(end, heapq.heappop(self.overwrites)[1])\n", None),
+    _I("benign-region-helper-guarded", "            (_, end1) = heapq.heappop(self.overwrites)\n            if end1 > end:\n                end = end1\n", None),
+    # the seeded slip: the heap is ascending by START only, the popped record may end before the merged end
+    _I("region-helper-takes-last-end", "            (_, end) = heapq.heappop(self.overwrites)\n", "C39.10"),
+    # a different edit with the same effect
+    _I("region-helper-end-of-popped", "            end = heapq.heappop(self.overwrites)[1]\n", "C39.10"),
+    # merges records that do not adjoin the region
+    _I("region-helper-merges-all", "            (_, end1) = heapq.heappop(self.overwrites)\n            end = max(end, end1)\n", "C39.10",
+       cond="self.overwrites"),
+    # C39.14: the region's start follows the merged records
+    _I("region-helper-start-rebound", "            (start, end1) = heapq.heappop(self.overwrites)\n            end = max(end, end1)\n", "C39.14"),
+    _I("region-helper-start-from-last-record", "            rec = heapq.heappop(self.overwrites)\n            start = rec[0]\n            end = max(end, rec[1])\n", "C39.14"),
+    _I("region-helper-start-is-record-end", "            (_, end1) = heapq.heappop(self.overwrites)\n            end = max(end, end1)\n", "C39.14",
+       more=[(F, "        (start, end) = heapq.heappop(self.overwrites)\n        while self.overwrites and", "        (end, start) = heapq.heappop(self.overwrites)\n        while self.overwrites and")]),
+    # the refactored write() forgets to re-queue the rest of the region (the bookkeeping rules decide the new shape as well)
+    _I("region-helper-shape-requeue-dropped", "            (_, end1) = heapq.heappop(self.overwrites)\n            end = max(end, end1)\n", ["C39.12", "C39.2"],
+       more=[(F, "                heapq.heappush(self.overwrites, (next_downloaded, end))\n                self._update_downloaded(next_downloaded)\n                return\n",
+              "                self._update_downloaded(next_downloaded)\n                return\n")]),
+    # .. or takes the region off the heap without having compared its first record with the chunk on that turn
+    _I("region-helper-shape-taken-before-compared", "            (_, end1) = heapq.heappop(self.overwrites)\n            end = max(end, end1)\n", "C39.12",
+       more=[(F, "            if self.overwrites[0][0] >= next_downloaded:\n                # This and all remaining overwrites are after the data we just downloaded.\n                break\n\n            (start, end) = self._pop_merged_overwrite()\n",
+              "            (start, end) = self._pop_merged_overwrite()\n            if self.overwrites and self.overwrites[0][0] >= next_downloaded:\n                break\n")]),
+    # the comparison with the chunk is gone altogether: nothing the rules can anchor on
+    _I("region-helper-shape-not-compared", "            (_, end1) = heapq.heappop(self.overwrites)\n            end = max(end, end1)\n", "ANALYSIS-ERROR",
+       more=[(F, "            if self.overwrites[0][0] >= next_downloaded:\n", "            if self.overwrites[0][1] >= next_downloaded:\n")]),
+    # C39.5 with max(): faithful tidy-up / the contiguity test dropped
+    M("benign-milestone-max", F, "            if start <= new_downloaded and end > milestone:\n                milestone = end\n",
+      "            if start <= new_downloaded:\n                milestone = max(milestone, end)\n", None),
+    M("milestone-max-unconditional", F, "            if start <= new_downloaded and end > milestone:\n                milestone = end\n",
+      "            milestone = max(milestone, end)\n", "C39.5"),
+    M("milestone-max-with-download-size", F, "            if start <= new_downloaded and end > milestone:\n                milestone = end\n",
+      "            if start <= new_downloaded:\n                milestone = max(milestone, end, self.download_size)\n", "C39.5"),
+]
+
+_I_OK = "            (_, end1) = heapq.heappop(self.overwrites)\n            end = max(end, end1)\n"
+_I_FIRST = "        (start, end) = heapq.heappop(self.overwrites)\n        while self.overwrites and"
+MUTANTS += [
+    # the helper reads the first record through a local / reads it in place before popping it (write() has tested the heap non-empty)
+    _I("benign-region-helper-record-local", _I_OK, None,
+       more=[(F, _I_FIRST, "        first = heapq.heappop(self.overwrites)\n        start, end = first\n        while self.overwrites and")]),
+    _I("benign-region-helper-top-then-pop", _I_OK, None,
+       more=[(F, _I_FIRST, "        (start, end) = self.overwrites[0]\n        heapq.heappop(self.overwrites)\n        while self.overwrites and")]),
+    _I("benign-region-helper-result-local", _I_OK, None,
+       more=[(F, "            (start, end) = self._pop_merged_overwrite()\n", "            region = self._pop_merged_overwrite()\n            (start, end) = region\n")]),
+    # .. but after its own pops the heap may be empty
+    _I("region-helper-loop-reads-empty-heap", _I_OK, "C39.7", cond="self.overwrites[0][0] <= end"),
+    # .. and write() must have tested the heap before it calls the helper
+    _I("region-helper-called-on-empty-heap", _I_OK, ["C39.7", "C39.12"],
+       more=[(F, "            if self.overwrites[0][0] >= next_downloaded:\n                # This and all remaining overwrites are after the data we just downloaded.\n                break\n\n            (start, end) = self._pop_merged_overwrite()\n",
+              "            if self.overwrites[0][0] >= next_downloaded:\n                # This and all remaining overwrites are after the data we just downloaded.\n                break\n\n            (start, end) = self._pop_merged_overwrite()\n            if end < self.downloaded:\n                (start, end) = self._pop_merged_overwrite()\n"),
+             (F, _I_FIRST, "        (start, end) = self.overwrites[0]\n        heapq.heappop(self.overwrites)\n        while self.overwrites and")]),
+]
